@@ -15,7 +15,8 @@ that point, relative to the function entry:
   relm  locks of the caller that have certainly been released on every path to the point
   g     thread-per-connection guard of the point (any | tpcOnly | nonTpcOnly)
 
-The walk is structured and flow-sensitive in the small: if/else, loops, switch/case,
+The walk is structured and flow-sensitive in the small (guarded `if (c) lock` / `if (c) unlock` pairs are matched by the text of `c`; a guarded
+unlock of a lock of the caller is taken to release it whenever it is held): if/else, loops, switch/case,
 break/continue/return/goto-forward, `__builtin_unreachable()` (MHD_PANIC) are followed;
 a branch that ends in return/break/continue/goto does not contribute to the state after
 the statement ("unlock-before-return").  Calls to functions of the table apply the
@@ -521,6 +522,14 @@ class Walker:
                     if ct and st.guarded.get(L) == ct:
                         r.may = r.may - {L}
                         r.guarded.pop(L, None)
+                # guarded release of a lock of the *caller* (`if (NULL != response->crc) unlock`): the
+                # callers take that lock under the same guard, so on the other branch it is not held
+                # either.  Counted as released for the may-side (lock-order edges); the must-side
+                # already drops it (rel).  Assumption stated in the trusted base; TSan would report
+                # an unlock of an unlocked mutex if the guards did not coincide.
+                for L in a.relMust - st.relMust:
+                    if L not in st.may:
+                        r.relMust = r.relMust | {L}
             if len(live) == 2:
                 r.g = st.g              # both continue: the guard of the enclosing code
             elif len(live) == 1 and live[0].g == "any":
